@@ -1,6 +1,9 @@
 package c14
 
-import "fmt"
+import (
+	"fmt"
+	"strings"
+)
 
 // Malformed schemas.  A core is the smallest malformed expression (a slot
 // filled with something that is not allowed there); every core is embedded in
@@ -53,6 +56,49 @@ var malContexts = []malCtx{
 
 type atom struct{ name, src string }
 
+// listHead is everything of a validator expression up to its constraint list.
+type listHead struct {
+	name, slot    string
+	open, close   string
+	leadingString bool // position 0 of the list may legitimately be a type-name string
+}
+
+// two well-formed constraints that accept every value, so that evaluation
+// always reaches the malformed entry next to them
+const (
+	fillerA = `(s:lengte 0)`
+	fillerB = `(s:not (s:in))`
+)
+
+// listPatterns: "" marks the position of the bad atom.
+var listPatterns = [][]string{
+	{""},
+	{"", fillerA}, {fillerA, ""},
+	{"", fillerA, fillerB}, {fillerA, "", fillerB}, {fillerA, fillerB, ""},
+}
+
+func listHeads() []listHead {
+	var hs []listHead
+	both := func(name, slot, typeArgs string, leading bool) {
+		hs = append(hs, listHead{name: name, slot: slot, open: `(s:make-validator "u" ` + typeArgs, close: ")", leadingString: leading})
+		hs = append(hs, listHead{name: "deftype/" + name, slot: slot, open: `(progn (s:deftype "c14-ml" ` + typeArgs, close: ") c14-ml)", leadingString: leading})
+	}
+	for _, t := range typeNamesExceptTagged() {
+		both(t, "constraint-list", "s:"+t, false)
+	}
+	tv := "constraint-list(tagged-value)"
+	both("tagged-value", tv, "s:tagged-value", true)
+	for _, sub := range []string{"any", "string", "int"} {
+		both("tagged-value+"+sub, tv, "s:tagged-value s:"+sub, false)
+	}
+	for _, sub := range []string{"any", "string"} {
+		hs = append(hs, listHead{name: "typedef+" + sub, slot: tv, open: `(s:make-validator ` + typedefA + ` s:` + sub, close: ")"})
+	}
+	both("type-slot-validator", "constraint-list(type-slot-validator)", refName, false)
+	both("type-slot-nested-validator", "constraint-list(type-slot-validator)", `(s:make-validator "w" s:sorted-map)`, false)
+	return hs
+}
+
 // things that are not constraints
 var badAtoms = []atom{
 	{"int", "5"}, {"float", "2.5"}, {"string", `"zz"`}, {"type-name", `"int"`},
@@ -98,24 +144,29 @@ func malCores() []malCore {
 		direct("deftype-name", a.name, `(s:deftype `+a.src+` s:int)`, ba)
 	}
 
-	// -- the constraint list of a type: "a non-constraint where a constraint is required"
-	for _, t := range typeNamesExceptTagged() {
-		for _, a := range badAtoms {
-			add("constraint-list", t+"/"+a.name, `(s:make-validator "u" s:`+t+` `+a.src+`)`, ba)
+	// -- the constraint list of a type: "a non-constraint where a constraint is
+	// required".  EVERY base type (including tagged-value with and without a
+	// leading user-data type name, the typedef-name form and a validator in the
+	// TYPE position), both constructors, EVERY bad atom at EVERY position of
+	// constraint lists of length 1..3 whose other entries are well-formed.
+	for _, h := range listHeads() {
+		for _, pat := range listPatterns {
+			for pos, e := range pat {
+				if e != "" {
+					continue
+				}
+				for _, at := range badAtoms {
+					if h.leadingString && pos == 0 && at.name == "type-name" {
+						continue // a leading "int" IS the documented user-data type name
+					}
+					items := make([]string, len(pat))
+					copy(items, pat)
+					items[pos] = at.src
+					what := fmt.Sprintf("%s/len%d/pos%d/%s", h.name, len(pat), pos, at.name)
+					add(h.slot, what, h.open+" "+strings.Join(items, " ")+h.close, ba)
+				}
+			}
 		}
-	}
-	for _, t := range []string{"any", "int", "sorted-map"} {
-		for _, a := range badAtoms {
-			add("constraint-list", t+"/2nd/"+a.name, `(s:make-validator "u" s:`+t+` (s:lengte 0) `+a.src+`)`, ba)
-			add("constraint-list", t+"/1st/"+a.name, `(s:make-validator "u" s:`+t+` `+a.src+` (s:lengte 0))`, ba)
-		}
-	}
-	for _, a := range badAtoms {
-		if a.name != "string" && a.name != "type-name" { // a leading string is the user-data type
-			add("constraint-list", "tagged-value/"+a.name, `(s:make-validator "u" s:tagged-value `+a.src+`)`, ba)
-		}
-		add("constraint-list", "tagged-value/sub/"+a.name, `(s:make-validator "u" s:tagged-value s:any `+a.src+`)`, ba)
-		add("constraint-list", "typedef/"+a.name, `(s:make-validator `+typedefA+` s:any `+a.src+`)`, ba)
 	}
 
 	// -- s:not
